@@ -39,9 +39,10 @@ func c01() *core.Check {
 		{Gen: "scale", N: 1 << 20},
 	}
 	return &core.Check{
-		ID: "C01",
+		ID:       "C01",
+		MaxStack: 256 << 10,
 		Rule: "inputs: corpus + seeds, every prefix/suffix/dangling-opener truncation of them, bounded-exhaustive atom sequences over byte-class-complete dictionaries, random atom sequences, havoc and novelty-guided mutation, whitelist-directed shapes, all 256 bytes x {1,2,3,33}, every scale family at 64 KiB and 288 KiB (more than 65 536 tokens; thorough: 1 MiB). " +
-			"Each case runs IsSQLi, then each of the five contexts on fresh state, then the raw tokenizer in six modes. Non-trivial = some context produced a non-empty fingerprint; distinct = distinct inputs (hash bit-table, lower bound).",
+			"Each case runs IsSQLi, then each of the five contexts on fresh state, then the raw tokenizer in six modes. Goroutine stack ceiling 256 KiB (the scanner is iterative: stack use must not grow with the input). Non-trivial = some context produced a non-empty fingerprint; distinct = distinct inputs (hash bit-table, lower bound).",
 		Plan: func(tier string, seed uint64) []core.Unit {
 			if tier == "thorough" {
 				return planMix(sqlDomain, thorough)
